@@ -16,6 +16,7 @@ search T-gt: generated scenario programs (origin<i>() / constants -> copies, con
              source=origin, sink=bt is run on the same programs (forward/backward agreement).
 """
 import collections
+import concurrent.futures
 import os
 import re
 import shutil
@@ -25,7 +26,8 @@ import vlib
 CORPUS_QUICK = ["analysis/backtrace/testdata/closures", "analysis/backtrace/testdata/tuples"]
 CORPUS_THOROUGH = ["analysis/backtrace/testdata/" + d for d in (
     "backtrace", "basic", "builtins", "closures", "closures_flowprecise", "closures_paper", "defers", "example0",
-    "example1", "example2", "fields", "globals", "interfaces", "panics", "parameters", "selects", "stdlib", "tuples",
+    "example1", "example2", "fields", "filters", "globals", "implicit-flow", "interface-summaries", "interfaces",
+    "intra-procedural", "panics", "parameters", "playground", "selects", "stdlib", "tuples", "validators",
     "with-context")]
 
 # ---------------------------------------------------------------------------------- scenario catalogue
@@ -218,6 +220,14 @@ def sh_ret_struct(i, rnd):
     return d, ["r := mk%d()" % i, "bt%d(r.a)" % i], "string"
 
 
+def sh_nested_closure(i, rnd):
+    d = ("func h%d() string {\n\tz := \"z\"\n\ty := o%da()\n\tc2 := func() string { return z + y }\n\treturn c2()\n}\n" % (i, i))
+    return d, ["x := \"\"", "c1 := func() { x = h%d() }" % i, "c1()", "bt%d(x)" % i], "string"
+
+
+# shapes on which the pinned analysis panics are generated into programs of their own (a panic hides every other result)
+ISOLATED = collections.OrderedDict([("nested-closure", sh_nested_closure)])
+
 SHAPES = collections.OrderedDict([
     ("direct", sh_direct), ("concat2", sh_concat2), ("helper", sh_helper), ("down", sh_down),
     ("const-down", sh_const_down), ("const-direct", sh_const_direct), ("field", sh_field), ("struct-ptr", sh_struct_ptr),
@@ -229,6 +239,9 @@ SHAPES = collections.OrderedDict([
     ("two-args", sh_two_args), ("loop", sh_loop), ("branch", sh_branch), ("method", sh_method),
     ("ret-struct", sh_ret_struct),
 ])
+
+# stable keys of the failing input classes (known_findings.txt)
+MISS_KEYS = {"defer-bt": "deferred-backtrace-point", "go-bt": "go-backtrace-point"}
 
 PRELUDE = """package main
 
@@ -290,10 +303,12 @@ func hit(i int, j int, v interface{}) {
 """
 
 
-def gen_program(seed, nscen, pkg):
+def gen_program(seed, nscen, pkg, shapes=None):
     """returns (source, [(index, shape name, variant signature)])"""
     rnd = vlib.lcg(seed)
-    names = list(SHAPES.keys())
+    table = dict(SHAPES)
+    table.update(ISOLATED)
+    names = list(shapes or SHAPES.keys())
     src = [PRELUDE]
     scen = []
     markers = []
@@ -301,7 +316,7 @@ def gen_program(seed, nscen, pkg):
     for i in range(nscen):
         # the catalogue in order first (every shape at least once when nscen >= len), then seed-chosen repeats
         name = names[i] if i < len(names) else names[rnd(len(names))]
-        decls, body, ptypes = SHAPES[name](i, rnd)
+        decls, body, ptypes = table[name](i, rnd)
         pts = ptypes.split(",")
         params = ", ".join("x%d %s" % (j, t) for j, t in enumerate(pts))
         hitl = "; ".join("hit(%d, %d, x%d)" % (i, j, j) for j in range(len(pts)))
@@ -373,6 +388,8 @@ def parse_sections(path):
                 cur["Wbad"].append((p[1], p[2], p[3]))
         elif t == "F":
             cur["F"].add((p[1], p[3]))
+        elif t == "VARIANT":
+            cur["variant"] = " ".join(p[1:])
         elif t == "A":
             cur["nA"] += 1
         elif t == "B":
@@ -403,6 +420,7 @@ def run(chk):
     found_concrete = False
     tie_broken = []           # (what, dir, mode)
     shape_dist = collections.Counter()
+    variants = set()
 
     # ---- generated scenario programs
     nprog = 1 if tier == "quick" else 5
@@ -413,6 +431,15 @@ def run(chk):
         d = os.path.join(work, pkg)
         os.makedirs(d)
         src, scen = gen_program(chk.seed * 7919 + k, nscen, pkg)
+        open(os.path.join(d, "go.mod"), "w").write("module %s\n\ngo 1.22\n" % pkg)
+        open(os.path.join(d, "main.go"), "w").write(src)
+        open(os.path.join(d, "config.yaml"), "w").write(CONFIG % {"pkg": pkg})
+        gens.append((d, scen))
+    for k, name in enumerate(ISOLATED):
+        pkg = "c03iso%d" % k
+        d = os.path.join(work, pkg)
+        os.makedirs(d)
+        src, scen = gen_program(chk.seed * 7919 + 100 + k, 2, pkg, shapes=["direct", name])
         open(os.path.join(d, "go.mod"), "w").write("module %s\n\ngo 1.22\n" % pkg)
         open(os.path.join(d, "main.go"), "w").write(src)
         open(os.path.join(d, "config.yaml"), "w").write(CONFIG % {"pkg": pkg})
@@ -436,6 +463,12 @@ def run(chk):
         probs = []
         for x in isec["X"]:
             stats["analysis_errors"] += 1
+        if isec["nB"] == 0 and sum(len(v) for v in isec["T"].values()) > 0:
+            # the run's trace log carries no "==> Node" / "Adding" lines (log statements reworded?): the exact replay is
+            # impossible; the run is still covered by the trace certificate and the native ground truth
+            stats["runs_without_event_log"] += 1
+            chk.notes.append("event log unavailable for %s (%s): exact replay skipped" % (isec["dir"], isec["mode"]))
+            return probs
         for (a, o, sy) in msec["Q"]:
             stats["visits_replayed"] += 1
             if sy != "sync":
@@ -443,6 +476,9 @@ def run(chk):
             elif o != "done":
                 stats["visits_not_done"] += 1
         stats["push_events"] += isec["nA"]
+        if msec.get("variant") and msec["variant"] != "fix_tuple=0 fix_ctrace=0":
+            stats["runs_tied_to_repaired_model"] += 1
+            variants.add(msec["variant"])
         args = set(a for _, al in isec["E"] for a in al)
         stats["entry_args"] += len(args)
         for a in sorted(args | set(isec["T"].keys()), key=int):
@@ -494,6 +530,12 @@ def run(chk):
         stats["silent_leaves"] += sum(len(v) for v in msec["S"].values())
         stats["runs_without_silent_leaf"] += sum(1 for a in msec["R"] if not msec["S"].get(a))
 
+    # the repository corpus is analysed concurrently with the generated programs
+    corpus = [os.path.join(vlib.REPO, p) for p in (CORPUS_QUICK if tier == "quick" else CORPUS_THOROUGH)]
+    corpus = [p for p in corpus if os.path.isdir(p)]
+    pool = concurrent.futures.ThreadPoolExecutor(max_workers=2)
+    corpus_job = pool.submit(analyse, corpus, "corpus", False) if corpus else None
+
     # ---- 1. generated programs: tie, certificate, spec, native ground truth, forward/backward agreement
     isecs, msecs = analyse([d for d, _ in gens], "gen", taint=True)
     bydir = collections.defaultdict(dict)
@@ -516,6 +558,27 @@ def run(chk):
             isec, msec = bydir[d][mode]
             if any("FAIL" in x or "HARNESS" in x for x in isec["X"]):
                 raise vlib.BuildError("c03dump could not analyse %s" % d, "\n".join(isec["X"]))
+            panics = [x for x in isec["X"] if x.startswith("PANIC")]
+            if panics:
+                # the analysis crashed: nothing is reported for any entry point of this program
+                stats["analysis_panics"] += 1
+                m = re.search(r"\.s(\d+)(\$|\b)", panics[0]) or re.search(r"[a-z]+(\d+)\b", panics[0])
+                shape = None
+                if m:
+                    shape = dict((i, n) for i, n, _ in scen).get(int(m.group(1)))
+                if shape is None and len(scen) == 2:
+                    shape = scen[1][1]
+                found_concrete = True
+                key = "panic:%s" % (shape or "unknown")
+                rd = chk.replay_dir(key + mode)
+                for fn in ("main.go", "config.yaml", "go.mod"):
+                    shutil.copy(os.path.join(d, fn), rd)
+                with open(os.path.join(rd, "replay.txt"), "w") as f:
+                    f.write("backtrace.Analyze panics on this program (%s): %s\nno trace is reported for any backtrace point, although "
+                            "natively %d origin markers reach their backtrace points.\nre-run: cd <this dir> && argot backtrace -config config.yaml .\n"
+                            % (mode, panics[0], len(hitset)))
+                chk.violation(key, "analysis panics (%s): %s" % (mode, panics[0][:120]), rd)
+                continue
             probs = tie(isec, msec)
             for pr in probs:
                 tie_broken.append((pr, d, mode))
@@ -539,7 +602,7 @@ def run(chk):
                         pat = "call: o%d%s()" % (i, mk[-1].lower())
                         kinds = ("C",)
                     else:
-                        pat = '"%s"' % mk
+                        pat = mk
                         kinds = ("A", "C", "S", "R", "P", "W", "V", "F", "K", "L")
                     on = False
                     for a in entry.get(i, {}).get(hj, []):
@@ -552,7 +615,7 @@ def run(chk):
                         stats["native_flows_on_a_trace"] += 1
                         continue
                     found_concrete = True
-                    key = "miss:%s" % name
+                    key = MISS_KEYS.get(name, "miss:%s" % name)
                     rd = chk.replay_dir(key + mode)
                     for fn in ("main.go", "config.yaml", "go.mod"):
                         shutil.copy(os.path.join(d, fn), rd)
@@ -589,10 +652,8 @@ def run(chk):
                             "native_hits": len(hitset), "fwd_only": sorted(taint_pairs - back_pairs)[:6]})
 
     # ---- 2. repository testdata: tie + certificate + spec statistics
-    corpus = [os.path.join(vlib.REPO, p) for p in (CORPUS_QUICK if tier == "quick" else CORPUS_THOROUGH)]
-    corpus = [p for p in corpus if os.path.isdir(p)]
-    if corpus:
-        isecs, msecs = analyse(corpus, "corpus", taint=False)
+    if corpus_job is not None:
+        isecs, msecs = corpus_job.result()
         for isec, msec in zip(isecs, msecs):
             if isec["mode"] not in ("eager", "ondemand"):
                 continue
@@ -629,6 +690,13 @@ def run(chk):
     stats["tie_disagreements"] = len(tie_broken)
     chk.cov["distribution"] = dict(stats)
     chk.cov["shapes"] = dict(shape_dist)
+    if variants:
+        chk.notes.append("runs in sync only with the repaired model variant(s): %s" % sorted(variants))
+    hit = set(k for k, _ in chk.known_hit)
+    stale = [k["key"] for k in vlib.load_known() if k["property"] == chk.prop and k["key"] not in hit]
+    if stale:
+        chk.cov["stale_known_finding"] = stale
+        chk.notes.append("listed findings not exhibited by this tree (repaired?): %s" % stale)
     chk.assumptions += [
         "the linked graph is dumped after the run (on-demand summaries included); summaries built in the middle of a run are seen as built from the start",
         "Go map iteration order is taken from the run's own trace log (\"Adding\" / \"==> Node\" lines), not modelled",
